@@ -638,7 +638,7 @@ def print_choice(c):
         s += "{" + c["cond"] + "} "
     s += "[" + print_parts(c["text"]) + "] -> " + c["target"]
     if c["args"]:
-        s += "(" + c["args"] + ")"
+        s += c.get("gap", "") + "(" + c["args"] + ")"
     for t in c["tags"]:
         s += " ^" + t
     return s
@@ -732,7 +732,7 @@ def print_items(items, indent, style, out, top=False, in_join=False):
                     sub["comments"] = False
                 print_items(it["block"], pad + "    ", sub, out, in_join=not style.get("join_block_comments"))
         elif k == "jump":
-            out.append(pad + "-> " + it["target"] + ("(" + it["args"] + ")" if it["args"] else "") + _cmt(style, "jump"))
+            out.append(pad + "-> " + it["target"] + (it.get("gap", "") + "(" + it["args"] + ")" if it["args"] else "") + _cmt(style, "jump"))
         elif k == "join":
             out.append(pad + "@join" + _cmt(style, "join"))
         else:
